@@ -43,6 +43,8 @@ CONSTANTS Names,       \* identifiers used by name events, e.g. {"a","b"}
                        \*   ("external": lib lies outside the project, on its path;
                        \*    "shadowed": lib is a top-level module, the first module lives
                        \*    in a package that contains a sibling module of the same name)
+          LibNames,    \* names the second module may have: "lb", and members of Names
+                       \*   (a module named like a top-level name it defines)
           ModFresh,    \* fresh module names: targets of RenameModule
           MaxScopes,   \* bound on Len(scopes)
           MaxEv,       \* bound on Cardinality(ev)
@@ -126,6 +128,8 @@ BindsIn(P, s, n) ==
                              /\ IsComp(P, e[1])
                              /\ Hoist(P, e[1]) = s
   \/ \E i \in 2..NS(P) : Parent(P, i) = s /\ SName(P, i) = n      \* def n / class n
+  \/ /\ n = P.libname /\ P.lib # "package"       \* `import lib` binds lib's name (`import pk.lib` binds pk)
+     /\ \E e \in P.ev : e[1] = s /\ e[2] = "modattr"
 
 Local(P, s, n) ==
   /\ BindsIn(P, s, n)
@@ -278,6 +282,12 @@ WellFormed(P) ==
   \* multi-module part
   /\ (P.lib = "none") => \A e \in P.ev : ~(e[2] \in LibOps \cup LibRefOps)
   /\ (P.lib # "shadowed") => \A e \in P.ev : ~IsSibTok(<<e[1], e[2], e[3], 0>>)
+  \* a second module named like an identifier of the program: in the first module that
+  \* identifier occurs only in references to lib (`import m` then binds m to the module;
+  \* mixing it with other bindings of m is outside the fragment)
+  /\ (P.libname \in AllNames) =>
+       /\ \A e \in P.ev : (e[3] = P.libname /\ e[1] # 0) => e[2] \in {"fromlibas", "modattr", "asattr", "fromsibas"}
+       /\ \A i \in 2..NS(P) : SName(P, i) # P.libname
   /\ \A n \in AllNames :
        \* a reference to lib's n needs the definition (ImportError otherwise)
        /\ (\E e \in P.ev : e[2] \in (LibRefOps \cup {"libuse"}) /\ e[3] = n) => LibDefined(P, n)
@@ -298,7 +308,7 @@ Init ==
   /\ scopes = << [kind |-> "module", parent |-> 0, name |-> NoName] >>
   /\ ev = {}
   /\ lib \in Libs
-  /\ libname = "lb"
+  /\ libname \in (IF lib = "none" THEN {"lb"} ELSE LibNames)
   /\ phase = "build"
   /\ ren = [kind |-> "none", scope |-> 0, old |-> NoName, new |-> NoName]
   /\ pre = [scopes |-> << >>, ev |-> {}, lib |-> "none", libname |-> "lb"]
@@ -454,6 +464,7 @@ TypeOK ==
        /\ (i = 1) = (scopes[i].kind = "module")
   /\ \A e \in ev : e[1] \in 0..Len(scopes) /\ e[3] \in AllNames /\ (e[1] = 0) = (e[2] \in LibOps \cup SibOps)
   /\ lib \in Libs
+  /\ libname \in LibNames \cup ModFresh
   /\ phase \in {"build", "renamed"}
 
 \* C15 ResolveTotal: every (scope, name) resolves to the module, to nothing,
